@@ -45,13 +45,13 @@ def gen_cases(rng, tier):
         model["tab"]["cutoff"] = float(rng.randint(1, 20))
     cases.append({"route": route, "model": model, "style": rng.randrange(1 << 30)})
   # energy exactly 0 at a grid row where the slope is not (root on the grid)
-  for i in range(16 if tier == "quick" else 96):
+  for i in range(20 if tier == "quick" else 120):
     nr = rng.choice([5, 9, 21, 41])
     cutoff = (nr - 1) * rng.choice([0.25, 0.125, 0.5])
     dr = cutoff / (nr - 1)
     k = rng.randint(1, nr - 2)
     node, rv = spec.root_node(rng, k * dr, spec.ROOT_VARIANTS[i % len(spec.ROOT_VARIANTS)])
-    route = ["api_class", "api_legacy", "potable", "cli"][(i + i // 8) % 4]
+    route = ["api_class", "api_legacy", "potable", "cli"][(i + i // 10) % 4]
     model = {"type": "pair", "target": "LAMMPS", "tab": {"nr": nr, "cutoff": cutoff}, "forms": [], "tables": [], "pair": [["Ar", "Ar", node]]}
     cases.append({"route": route, "model": model, "style": rng.randrange(1 << 30), "root_on_grid": k, "root_variant": rv})
   # a discontinuity exactly ON a row of a grid that is exact in doubles (first row, interior, last row = cutoff), and a
